@@ -1164,7 +1164,7 @@ pub fn run(cx: &mut Ctx) {
     cx.check(
         "identities",
         "value round trips (tojson|fromjson, fromstream(tostream), to_entries|from_entries on object roots, [.[]|tojson|fromjson]) on the whole value; @base64|@base64d, @uri|@urid and the two encoders against harness decoders on every string and key of the value (each as its own JSON document with random escape forms); both evaluators",
-        Budget { quick: 40_000, thorough: 1_500_000, max_len: 3000 },
+        Budget { quick: 40_000, thorough: 1_000_000, max_len: 3000 },
         |u, st| {
             let d = gen_doc(u);
             classify(&d, st, 1);
@@ -1193,7 +1193,7 @@ pub fn run(cx: &mut Ctx) {
     cx.check(
         "paths",
         "[paths] equals the model's path set; for every model path p (all when <=48, else a spread sample): getpath(p) = model lookup, setpath(p; getpath(p)) = input; plus the same through `paths as $p`; both evaluators",
-        Budget { quick: 16_000, thorough: 600_000, max_len: 3000 },
+        Budget { quick: 16_000, thorough: 300_000, max_len: 3000 },
         |u, st| {
             let d = gen_doc(u);
             classify(&d, st, 2);
